@@ -36,6 +36,11 @@
 (*          recursion marks and blob encoding of giroffsets.c / girnode.c  *)
 (***************************************************************************)
 EXTENDS Integers, Sequences, FiniteSets, TLC
+\* What-if switches of the implementation-shaped layer (the property layer does not depend on them):
+\*   EnumCap32           TRUE = compute_enum_storage_type as it was before fix 7607f22: never wider than 4 bytes
+\*   UnionFieldCallback  TRUE = girparser.c start_function accepts <callback> inside a <field> of a <union>
+\*                       (fix 927c0d9); FALSE = the code before it: the compiler aborts on such a union
+CONSTANTS EnumCap32, UnionFieldCallback
 
 Max(a, b) == IF a >= b THEN a ELSE b
 Min(a, b) == IF a <= b THEN a ELSE b
@@ -141,6 +146,24 @@ HasAnon(ms) == HasKind(ms, AnonKinds)
 \* a hidden member that is not pointer-shaped (the implementation sizes every such member as a pointer)
 HasHidden(ms) == HasKind(ms, HidKinds \ {"hid8"})
 HasAnyHidden(ms) == HasKind(ms, HidKinds)
+\* an inline callback member (<field><callback/></field>) directly inside a named union (the declaration
+\* itself or an embedded one; an anonymous union is dropped by the parser together with its fields)
+RECURSIVE HasUnionCallbackIn(_, _)
+HasUnionCallbackIn(isUnion, ms) ==
+    \E i \in 1..Len(ms) :
+        \/ (isUnion /\ ms[i].k = "callback")
+        \/ (ms[i].k # "array" /\ HasUnionCallbackIn(ms[i].k = "union", ms[i].sub))
+        \/ (ms[i].k = "array" /\ HasUnionCallbackIn(FALSE, ms[i].sub))
+HasUnionCallback(kind, ms) == HasUnionCallbackIn(kind = "union", ms)
+\* an anonymous struct directly inside a struct, or an anonymous union directly inside a union
+RECURSIVE HasSameKindAnonIn(_, _)
+HasSameKindAnonIn(isUnion, ms) ==
+    \E i \in 1..Len(ms) :
+        \/ (isUnion /\ ms[i].k = "anonunion")
+        \/ (~isUnion /\ ms[i].k = "anonstruct")
+        \/ (ms[i].k # "array" /\ HasSameKindAnonIn(IsUnionish(ms[i].k), ms[i].sub))
+        \/ (ms[i].k = "array" /\ HasSameKindAnonIn(FALSE, ms[i].sub))
+HasSameKindAnon(kind, ms) == HasSameKindAnonIn(kind = "union", ms)
 \* value ranges for which gcc needs 64 bits of storage
 EnumWide(lo, hi) == EnumAbi(lo, hi).size = 8
 RECURSIVE HasWideEnum(_)
@@ -183,19 +206,23 @@ FfiSize(tag) ==
 \* compute_enum_storage_type(): min_value/max_value start at 0; thresholds as written; the widths
 \* sizeof(Enum1..Enum9) and signedness (gint64)(EnumN)(-1) < 0 are what gcc gives the nine probe
 \* enumerations of giroffsets.c on this platform: all 4 bytes, Enum1..6 unsigned, Enum7..9 signed.
-ProbeWidth == [i \in 1..9 |-> 4]
-ProbeSigned == [i \in 1..9 |-> i >= 7]
+\* Probes 10/11 are not enumerations of the C file: the explicit gint64 / guint64 branches (fix
+\* 7607f22) for value ranges that fit neither int nor unsigned int.
+ProbeWidth == [i \in 1..11 |-> IF i <= 9 THEN 4 ELSE 8]
+ProbeSigned == [i \in 1..11 |-> i \in {7, 8, 9, 10}]
 EnumProbe(lo, hi) ==
     LET mn == Min(lo, R("0"))
         mx == Max(hi, R("0")) IN
     IF mn < R("0")
     THEN IF mn > R("-128") /\ mx <= R("127") THEN 7
-         ELSE IF mn >= R("-32768") /\ mx <= R("32767") THEN 8 ELSE 9
+         ELSE IF mn >= R("-32768") /\ mx <= R("32767") THEN 8
+         ELSE IF EnumCap32 \/ (mn >= R("-2147483648") /\ mx <= R("2147483647")) THEN 9 ELSE 10
     ELSE IF mx <= R("127") THEN 1
          ELSE IF mx <= R("255") THEN 2
          ELSE IF mx <= R("32767") THEN 3
          ELSE IF mx <= R("65535") THEN 4
-         ELSE IF mx <= R("2147483647") THEN 5 ELSE 6
+         ELSE IF mx <= R("2147483647") THEN 5
+         ELSE IF EnumCap32 \/ mx <= R("4294967295") THEN 6 ELSE 11
 EnumImplTag(lo, hi) ==
     LET p == EnumProbe(lo, hi)
         w == ProbeWidth[p]
@@ -235,13 +262,16 @@ ExpandOffs(ms, offs, i, j) ==
     ELSE IF ms[i].k \in AnonKinds THEN <<-2>> \o ExpandOffs(ms, offs, i + 1, j)
     ELSE <<(IF j <= Len(offs) THEN offs[j] ELSE -2)>> \o ExpandOffs(ms, offs, i + 1, j + 1)
 
+RECURSIVE ArrayOfHidden(_)
+ArrayOfHidden(m) == m.k = "array" /\ (m.sub[1].k \in HidKinds \/ ArrayOfHidden(m.sub[1]))
 RECURSIVE ImplSA(_, _, _), ImplStructFold(_, _, _, _, _, _, _, _), ImplUnionFold(_, _, _, _, _, _, _), ImplNode(_, _, _)
 \* get_field_size_alignment / get_type_size_alignment / get_interface_size_alignment
 ImplSA(env, vis, m) ==
     CASE m.k = "callback" -> IOk(FfiSize("POINTER"), FfiSize("POINTER"))                \* field->callback
       [] m.k \in HidKinds -> IOk(FfiSize("POINTER"), FfiSize("POINTER"))                 \* start_field: introspectable="0" => parse_type("gpointer")
       [] IsPointerKind(m.k) -> IOk(FfiSize("POINTER"), FfiSize("POINTER"))              \* type->is_pointer
-      [] m.k = "array" -> LET e == ImplSA(env, vis, m.sub[1]) IN                        \* has_size, not a pointer
+      [] m.k = "array" /\ ArrayOfHidden(m) -> IOk(FfiSize("POINTER"), FfiSize("POINTER")) \* the whole field is introspectable="0"
+      [] m.k = "array" /\ ~ArrayOfHidden(m) -> LET e == ImplSA(env, vis, m.sub[1]) IN     \* has_size, not a pointer
                           IF e.st = "ok" THEN IOk(m.n * e.size, e.align) ELSE e
       [] m.k = "enum" -> LET s == FfiSize(EnumImplTag(m.lo, m.hi)) IN IOk(s, s)         \* get_enum_size_alignment
       [] m.k = "cbref" -> IOk(FfiSize("POINTER"), FfiSize("POINTER"))                   \* G_IR_NODE_CALLBACK
@@ -283,7 +313,14 @@ ImplNode(env, vis, i) ==
     ELSE ImplStructFold(env, vis \cup {i}, ParsedMembers(env[i].ms), 1, 0, 1, FALSE, <<>>)
 
 NoEnv == <<>>
-ImplLayout(kind, ms) == IF kind = "union" THEN ImplUnionFold(NoEnv, {}, ParsedMembers(ms), 1, 0, 1, "ok")
+\* girparser.c aborts before anything is computed (no typelib at all) on
+\*  - (UnionFieldCallback = FALSE) <callback> inside a <field> of a <union>: start_function accepts it in
+\*    STATE_CLASS_FIELD and STATE_STRUCT_FIELD only; the field is left without a type ("Caught NULL node", g_error);
+\*  - a nameless <record> child of a <record> / <union> child of a <union>: state_switch() to the
+\*    state the parser is already in (g_assert).
+ParserAborts(kind, ms) == (~UnionFieldCallback /\ HasUnionCallback(kind, ms)) \/ HasSameKindAnon(kind, ms)
+ImplLayout(kind, ms) == IF ParserAborts(kind, ms) THEN [st |-> "fatal", size |-> -1, align |-> -1, offs |-> <<>>]
+                        ELSE IF kind = "union" THEN ImplUnionFold(NoEnv, {}, ParsedMembers(ms), 1, 0, 1, "ok")
                         ELSE ImplStructFold(NoEnv, {}, ParsedMembers(ms), 1, 0, 1, FALSE, <<>>)
 
 \* girnode.c: StructBlob/UnionBlob.size is a guint32 (reported here as gint32, so -1 stays -1),
